@@ -251,6 +251,115 @@ pub mod vx_ids {
         o.subrange(0, lo) + r + o.subrange(hi, o.len() as int)
     }
 
+    /// the extent of a non-empty canonical sequence whose coverage lies in `[wa, wb)`
+    pub proof fn lemma_extent<T: Merge>(r: Seq<Ent<T>>, wa: int, wb: int)
+        requires
+            nonempty(r),
+            r.len() > 0,
+            forall|c: int| #[trigger] covers(r, c) ==> wa <= c < wb,
+        ensures
+            wa <= r[0].0.start,
+            r.last().0.end <= wb,
+            wa < wb,
+    {
+        assert(inr(r[0].0, r[0].0.start as int));
+        assert(covers(r, r[0].0.start as int));
+        assert(inr(r.last().0, r.last().0.end as int - 1));
+        assert(covers(r, r.last().0.end as int - 1));
+    }
+
+    /// the parts of `o` in front of index `lo` / from index `hi` on, described by clock bounds
+    pub proof fn lemma_outside<T: Merge>(o: Seq<Ent<T>>, lo: int, hi: int, wa: int, wb: int)
+        requires
+            canon(o),
+            0 <= lo <= hi <= o.len(),
+            wa < wb,
+            lo > 0 ==> o[lo - 1].0.end <= wa,
+            hi < o.len() ==> wb <= o[hi].0.start,
+            lo < hi ==> wa <= o[lo].0.start && o[hi - 1].0.end <= wb,
+        ensures
+            canon(o.subrange(0, lo)),
+            canon(o.subrange(hi, o.len() as int)),
+            forall|c: int| #[trigger] covers(o.subrange(0, lo), c) <==> covers(o, c) && c < wa,
+            forall|c: int| #[trigger] covers(o.subrange(hi, o.len() as int), c) <==> covers(o, c) && wb <= c,
+            forall|c: int| covers(o, c) && c < wa ==> #[trigger] val_at(o.subrange(0, lo), c) == val_at(o, c),
+            forall|c: int| covers(o, c) && wb <= c ==> #[trigger] val_at(o.subrange(hi, o.len() as int), c) == val_at(o, c),
+    {
+        let n = o.len() as int;
+        let pre = o.subrange(0, lo);
+        let suf = o.subrange(hi, n);
+        lemma_sub(o, 0, lo);
+        lemma_sub(o, hi, n);
+        if lo > 0 { assert(pre.last() == o[lo - 1]); }
+        if hi < n { assert(suf[0] == o[hi]); }
+        assert forall|c: int| #[trigger] covers(pre, c) <==> covers(o, c) && c < wa by {
+            if covers(pre, c) {
+                lemma_bounds(pre, c);
+            }
+            if covers(o, c) && c < wa {
+                let k = idx_of(o, c);
+                assert(inr(o[k].0, c));
+                if k >= lo {
+                    if lo < hi {
+                        if lo < k { assert(o[lo].0.end <= o[k].0.start); assert(o[lo].0.start < o[lo].0.end); }
+                    } else {
+                        if hi < k { assert(o[hi].0.end <= o[k].0.start); assert(o[hi].0.start < o[hi].0.end); }
+                    }
+                    assert(false);
+                }
+            }
+        }
+        assert forall|c: int| #[trigger] covers(suf, c) <==> covers(o, c) && wb <= c by {
+            if covers(suf, c) {
+                lemma_bounds(suf, c);
+            }
+            if covers(o, c) && wb <= c {
+                let k = idx_of(o, c);
+                assert(inr(o[k].0, c));
+                if k < hi {
+                    if lo < hi {
+                        if k < hi - 1 { assert(o[k].0.end <= o[hi - 1].0.start); assert(o[hi - 1].0.start < o[hi - 1].0.end); }
+                    } else {
+                        if k < lo - 1 { assert(o[k].0.end <= o[lo - 1].0.start); assert(o[lo - 1].0.start < o[lo - 1].0.end); }
+                    }
+                    assert(false);
+                }
+            }
+        }
+    }
+
+    /// concatenation of three canonical sequences, the middle one not empty
+    pub proof fn lemma_concat3<T: Merge>(a: Seq<Ent<T>>, b: Seq<Ent<T>>, d: Seq<Ent<T>>)
+        requires
+            canon(a),
+            canon(b),
+            canon(d),
+            b.len() > 0,
+            a.len() > 0 ==> a.last().0.end <= b[0].0.start,
+            a.len() > 0 && a.last().0.end == b[0].0.start ==> !a.last().1.eq_spec(&b[0].1),
+            d.len() > 0 ==> b.last().0.end <= d[0].0.start,
+            d.len() > 0 && b.last().0.end == d[0].0.start ==> !b.last().1.eq_spec(&d[0].1),
+        ensures
+            canon(a + b + d),
+            forall|c: int| #[trigger] covers(a + b + d, c) <==> covers(a, c) || covers(b, c) || covers(d, c),
+            forall|c: int| covers(a, c) ==> #[trigger] val_at(a + b + d, c) == val_at(a, c),
+            forall|c: int| covers(b, c) ==> #[trigger] val_at(a + b + d, c) == val_at(b, c),
+            forall|c: int| covers(d, c) ==> #[trigger] val_at(a + b + d, c) == val_at(d, c),
+    {
+        lemma_concat(a, b);
+        let ab = a + b;
+        assert(ab.last() == b.last());
+        lemma_concat(ab, d);
+        assert forall|c: int| covers(a, c) implies #[trigger] val_at(ab + d, c) == val_at(a, c) by {
+            assert(covers(ab, c));
+            assert(val_at(ab, c) == val_at(a, c));
+        }
+        assert forall|c: int| covers(b, c) implies #[trigger] val_at(ab + d, c) == val_at(b, c) by {
+            assert(covers(ab, c));
+            assert(val_at(ab, c) == val_at(b, c));
+        }
+    }
+
     /// Splice lemma: `r` is canonical, lives inside the window `[wa, wb)`, the entries before `lo` end at or
     /// before `wa`, the entries from `hi` on start at or after `wb`, the replaced entries lie inside the window,
     /// and the two seams are not coalescable.
@@ -277,54 +386,22 @@ pub mod vx_ids {
         let pre = o.subrange(0, lo);
         let suf = o.subrange(hi, n);
         let res = splice(o, lo, hi, r);
-        lemma_sub(o, 0, lo);
-        lemma_sub(o, hi, n);
-        // r's own extent lies inside the window
-        assert(inr(r[0].0, r[0].0.start as int));
-        assert(covers(r, r[0].0.start as int));
-        assert(inr(r.last().0, r.last().0.end as int - 1));
-        assert(covers(r, r.last().0.end as int - 1));
-        assert(wa <= r[0].0.start && r.last().0.end <= wb && wa < wb);
-        if lo > 0 {
-            assert(pre.last() == o[lo - 1]);
-        }
-        lemma_concat(pre, r);
-        let pr = pre + r;
-        assert(pr.last() == r.last());
-        if hi < n {
-            assert(suf[0] == o[hi]);
-        }
-        lemma_concat(pr, suf);
-        assert(res == pr + suf);
-        // which clocks of `o` survive in pre / suf
-        assert forall|c: int| covers(pre, c) implies c < wa by {
-            lemma_bounds(pre, c);
-        }
-        assert forall|c: int| covers(suf, c) implies wb <= c by {
-            lemma_bounds(suf, c);
-        }
-        assert forall|c: int| covers(o, c) && !(wa <= c < wb) implies covers(pre, c) || covers(suf, c) by {
-            let k = idx_of(o, c);
-            assert(inr(o[k].0, c));
-            if lo <= k < hi {
-                if lo < k { assert(o[lo].0.end <= o[k].0.start); assert(o[lo].0.start < o[lo].0.end); }
-                if k < hi - 1 { assert(o[k].0.end <= o[hi - 1].0.start); assert(o[hi - 1].0.start < o[hi - 1].0.end); }
-                assert(false);
-            }
-        }
+        lemma_extent(r, wa, wb);
+        lemma_outside(o, lo, hi, wa, wb);
+        if lo > 0 { assert(pre.last() == o[lo - 1]); }
+        if hi < n { assert(suf[0] == o[hi]); }
+        lemma_concat3(pre, r, suf);
         assert forall|c: int| #[trigger] covers(res, c) <==> covers(r, c) || (covers(o, c) && !(wa <= c < wb)) by {
-            assert(covers(pr, c) <==> covers(pre, c) || covers(r, c));
-        }
-        assert forall|c: int| covers(r, c) implies #[trigger] val_at(res, c) == val_at(r, c) by {
-            assert(covers(pr, c));
-            assert(val_at(pr, c) == val_at(r, c));
+            assert(covers(pre, c) <==> covers(o, c) && c < wa);
+            assert(covers(suf, c) <==> covers(o, c) && wb <= c);
         }
         assert forall|c: int| covers(o, c) && !(wa <= c < wb) implies #[trigger] val_at(res, c) == val_at(o, c) by {
-            if covers(pre, c) {
-                assert(covers(pr, c));
-                assert(val_at(pr, c) == val_at(pre, c));
+            if c < wa {
+                assert(covers(pre, c));
+                assert(val_at(pre, c) == val_at(o, c));
             } else {
                 assert(covers(suf, c));
+                assert(val_at(suf, c) == val_at(o, c));
             }
         }
     }
@@ -368,6 +445,7 @@ pub mod vx_ids {
     }
 
     /// the contract of `insert_with` as a predicate on (old view, new view)
+    #[verifier::opaque]
     pub open spec fn ins_post<T: Merge>(o: Seq<Ent<T>>, range: Range<u32>, value: T, res: Seq<Ent<T>>) -> bool {
         &&& canon(res)
         &&& forall|c: int| #![trigger covers(res, c)] #![trigger covers(o, c)] #![trigger inr(range, c)] covers(res, c) <==> covers(o, c) || inr(range, c)
@@ -387,6 +465,7 @@ pub mod vx_ids {
         ensures
             ins_post(o, range, value, o),
     {
+        reveal(ins_post);
         assert forall|c: int| covers(o, c) && !inr(range, c) implies #[trigger] val_at(o, c).eq_spec(&val_at(o, c)) by {
             let k = idx_of(o, c);
             assert(inr(o[k].0, c));
@@ -409,6 +488,7 @@ pub mod vx_ids {
         ensures
             ins_post(o, range, value, res),
     {
+        reveal(ins_post);
         reveal(splice);
         let r = seq![(range, value)];
         assert(r[0] == (range, value));
@@ -442,6 +522,33 @@ pub mod vx_ids {
         }
     }
 
+    /// a `last_mut()` borrow that was not written through leaves the vector as it was
+    pub proof fn lemma_unchanged<T>(o: Seq<Ent<T>>, res: Seq<Ent<T>>)
+        requires
+            if o.len() > 0 { res == o.update(o.len() - 1, o.last()) } else { res.len() == 0 },
+        ensures
+            res == o,
+    {
+        assert(res =~= o);
+    }
+
+    /// tail fast path: push behind the last entry (touching allowed when the values differ)
+    pub proof fn lemma_ins_push<T: Merge>(o: Seq<Ent<T>>, range: Range<u32>, value: T, res: Seq<Ent<T>>)
+        requires
+            canon(o),
+            value.wf(),
+            range.start < range.end,
+            o.len() > 0,
+            o.last().0.end <= range.start,
+            o.last().0.end == range.start ==> !o.last().1.eq_spec(&value),
+            res == o.update(o.len() - 1, o.last()).push((range, value)),
+        ensures
+            ins_post(o, range, value, res),
+    {
+        assert(res =~= o.insert(o.len() as int, (range, value)));
+        lemma_ins_single(o, o.len() as int, range, value, res);
+    }
+
     /// tail fast path "same value - extend"
     pub proof fn lemma_ins_extend<T: Merge>(o: Seq<Ent<T>>, range: Range<u32>, value: T, res: Seq<Ent<T>>)
         requires
@@ -451,10 +558,11 @@ pub mod vx_ids {
             o.len() > 0,
             o.last().0.start <= range.start <= o.last().0.end,
             o.last().1.eq_spec(&value),
-            res =~= o.update(o.len() - 1, (o.last().0.start..umax(o.last().0.end, range.end), o.last().1)),
+            res == o.update(o.len() - 1, (o.last().0.start..umax(o.last().0.end, range.end), o.last().1)),
         ensures
             ins_post(o, range, value, res),
     {
+        reveal(ins_post);
         let n = o.len() - 1;
         let l = o[n];
         let ne = umax(l.0.end, range.end);
@@ -491,6 +599,7 @@ pub mod vx_ids {
     // general path, part 1: the window [lo, hi) and the frontier invariant of `replacement`
     // ------------------------------------------------------------------------------------------
     /// entries `lo..hi` are exactly those that overlap or touch `range`
+    #[verifier::opaque]
     pub open spec fn win<T: Merge>(o: Seq<Ent<T>>, lo: int, hi: int, range: Range<u32>) -> bool {
         &&& canon(o)
         &&& 0 <= lo < hi <= o.len()
@@ -523,6 +632,7 @@ pub mod vx_ids {
     }
 
     /// frontier invariant: `r` is the canonical result restricted to `[r0, f)`
+    #[verifier::opaque]
     pub open spec fn finv<T: Merge>(o: Seq<Ent<T>>, range: Range<u32>, value: T, r0: int, r: Seq<Ent<T>>, f: int) -> bool {
         &&& canon(r)
         &&& r0 <= f
@@ -532,6 +642,7 @@ pub mod vx_ids {
     }
 
     /// the contract of `push_coalesced` as a predicate on (before, after)
+    #[verifier::opaque]
     pub open spec fn pushed<T: Merge>(a: Seq<Ent<T>>, b: Seq<Ent<T>>, rg: Range<u32>, v: T) -> bool {
         &&& canon(b)
         &&& forall|c: int| #[trigger] covers(b, c) <==> covers(a, c) || inr(rg, c)
@@ -557,6 +668,8 @@ pub mod vx_ids {
         ensures
             finv(o, range, value, r0, r2, rg.end as int),
     {
+        reveal(finv);
+        reveal(pushed);
         assert forall|c: int| #[trigger] covers(r2, c) <==> r0 <= c < rg.end && target(o, range, c) by {
             assert(covers(r2, c) <==> covers(r, c) || inr(rg, c));
             assert(covers(r, c) <==> r0 <= c < f && target(o, range, c));
@@ -606,6 +719,7 @@ pub mod vx_ids {
             i > lo ==> range.start <= o[i - 1].0.end <= o[i].0.start,
             i > 0 ==> o[i - 1].0.end <= o[i].0.start,
     {
+        reveal(win);
         if i > lo {
             assert(range.start <= o[i - 1].0.end);
             assert(o[lo].0.end <= o[i].0.start);
@@ -631,7 +745,12 @@ pub mod vx_ids {
             },
         ensures
             finv(o, range, value, win_lo(o, lo, range), g1, o[i].0.start as int),
+            canon(g1),
+            g1.len() > 0 ==> g1.last().0.end <= o[i].0.start,
     {
+        reveal(win);
+        reveal(finv);
+        reveal(pushed);
         lemma_win_facts(o, lo, hi, range, i);
         let e = o[i];
         if cursor >= range.start && cursor < e.0.start {
@@ -645,6 +764,7 @@ pub mod vx_ids {
         } else {
             assert(cursor == e.0.start);
         }
+        lemma_finv_pre(o, range, value, win_lo(o, lo, range), g1, o[i].0.start as int);
     }
 
     /// step 2: the part of entry `i` in front of `range`
@@ -661,7 +781,12 @@ pub mod vx_ids {
             },
         ensures
             finv(o, range, value, win_lo(o, lo, range), g2, umax(o[i].0.start, range.start) as int),
+            canon(g2),
+            g2.len() > 0 ==> g2.last().0.end <= umax(o[i].0.start, range.start),
     {
+        reveal(win);
+        reveal(finv);
+        reveal(pushed);
         lemma_win_facts(o, lo, hi, range, i);
         let e = o[i];
         if e.0.start < range.start {
@@ -673,6 +798,7 @@ pub mod vx_ids {
             }
             lemma_advance(o, range, value, win_lo(o, lo, range), g1, e.0.start as int, g2, rg, e.1);
         }
+        lemma_finv_pre(o, range, value, win_lo(o, lo, range), g2, umax(o[i].0.start, range.start) as int);
     }
 
     /// step 3: the part of entry `i` inside `range`
@@ -689,7 +815,12 @@ pub mod vx_ids {
             },
         ensures
             finv(o, range, value, win_lo(o, lo, range), g3, umax(umax(o[i].0.start, range.start), umin(o[i].0.end, range.end)) as int),
+            canon(g3),
+            g3.len() > 0 ==> g3.last().0.end <= umax(umax(o[i].0.start, range.start), umin(o[i].0.end, range.end)),
     {
+        reveal(win);
+        reveal(finv);
+        reveal(pushed);
         lemma_win_facts(o, lo, hi, range, i);
         let e = o[i];
         let os = umax(e.0.start, range.start);
@@ -704,6 +835,7 @@ pub mod vx_ids {
             }
             lemma_advance(o, range, value, win_lo(o, lo, range), g2, os as int, g3, rg, m);
         }
+        lemma_finv_pre(o, range, value, win_lo(o, lo, range), g3, umax(umax(o[i].0.start, range.start), umin(o[i].0.end, range.end)) as int);
     }
 
     /// step 4: the part of entry `i` behind `range`
@@ -720,7 +852,12 @@ pub mod vx_ids {
             },
         ensures
             finv(o, range, value, win_lo(o, lo, range), g4, o[i].0.end as int),
+            canon(g4),
+            g4.len() > 0 ==> g4.last().0.end <= o[i].0.end,
     {
+        reveal(win);
+        reveal(finv);
+        reveal(pushed);
         lemma_win_facts(o, lo, hi, range, i);
         let e = o[i];
         if e.0.end > range.end {
@@ -732,6 +869,7 @@ pub mod vx_ids {
             }
             lemma_advance(o, range, value, win_lo(o, lo, range), g3, range.end as int, g4, rg, e.1);
         }
+        lemma_finv_pre(o, range, value, win_lo(o, lo, range), g4, o[i].0.end as int);
     }
 
     /// step 5 (after the loop): the rest of `range` behind the last entry of the window
@@ -748,6 +886,9 @@ pub mod vx_ids {
         ensures
             finv(o, range, value, win_lo(o, lo, range), g1, win_hi(o, hi, range)),
     {
+        reveal(win);
+        reveal(finv);
+        reveal(pushed);
         lemma_win_facts(o, lo, hi, range, hi - 1);
         let cursor = o[hi - 1].0.end;
         if cursor < range.end {
@@ -773,6 +914,9 @@ pub mod vx_ids {
             ins_post(o, range, value, res),
             r.len() > 0,
     {
+        reveal(win);
+        reveal(finv);
+        reveal(ins_post);
         reveal(splice);
         let wa = win_lo(o, lo, range);
         let wb = win_hi(o, hi, range);
@@ -853,6 +997,229 @@ pub mod vx_ids {
         }
     }
 
+    /// the partition index of `start < x` in a canonical sequence (what `partition_point` computes)
+    pub open spec fn part_idx<T>(o: Seq<Ent<T>>, x: u32) -> int
+        decreases o.len(),
+    {
+        if o.len() == 0 {
+            0
+        } else if o.last().0.start < x {
+            o.len() as int
+        } else {
+            part_idx(o.drop_last(), x)
+        }
+    }
+
+    /// The predicate of the binary search is monotone; stated with a single-index trigger so that the
+    /// partition precondition of `partition_point` follows without a quadratic number of instantiations.
+    pub proof fn lemma_part<T: Merge>(o: Seq<Ent<T>>, x: u32)
+        requires
+            sorted(o),
+            nonempty(o),
+        ensures
+            0 <= part_idx(o, x) <= o.len(),
+            forall|i: int| 0 <= i < o.len() ==> (((#[trigger] o[i]).0.start < x) <==> i < part_idx(o, x)),
+        decreases o.len(),
+    {
+        if o.len() > 0 {
+            let n = o.len() - 1;
+            let d = o.drop_last();
+            assert forall|i: int, j: int| 0 <= i < j < d.len() implies (#[trigger] d[i]).0.end <= (#[trigger] d[j]).0.start by {
+                assert(d[i] == o[i] && d[j] == o[j]);
+            }
+            assert forall|i: int| 0 <= i < d.len() implies (#[trigger] d[i]).0.start < d[i].0.end by {
+                assert(d[i] == o[i]);
+            }
+            lemma_part(d, x);
+            assert forall|i: int| 0 <= i < o.len() implies (((#[trigger] o[i]).0.start < x) <==> i < part_idx(o, x)) by {
+                if o[n].0.start < x {
+                    if i < n {
+                        assert(o[i].0.end <= o[n].0.start);
+                        assert(o[i].0.start < o[i].0.end);
+                    }
+                } else {
+                    if i < n {
+                        assert(d[i] == o[i]);
+                    }
+                }
+            }
+        }
+    }
+
+    /// `canon` gives the precondition of `lemma_part` (usable where the parts of `canon` are hidden)
+    pub proof fn lemma_part_canon<T: Merge>(o: Seq<Ent<T>>, x: u32)
+        requires
+            canon(o),
+        ensures
+            0 <= part_idx(o, x) <= o.len(),
+            forall|i: int| 0 <= i < o.len() ==> (((#[trigger] o[i]).0.start < x) <==> i < part_idx(o, x)),
+    {
+        lemma_part(o, x);
+    }
+
+    /// what is known about `lo` after the binary search and the optional step to the left
+    #[verifier::opaque]
+    pub open spec fn lo_ok<T>(o: Seq<Ent<T>>, lo: int, range: Range<u32>) -> bool {
+        &&& 0 <= lo <= o.len()
+        &&& (lo > 0 ==> o[lo - 1].0.end < range.start)
+        &&& (lo < o.len() ==> o[lo].0.end >= range.start)
+        &&& forall|k: int| lo < k < o.len() ==> (#[trigger] o[k]).0.start >= range.start
+    }
+
+    pub proof fn lemma_lo_ok<T: Merge>(o: Seq<Ent<T>>, lo0: int, lo: int, range: Range<u32>)
+        requires
+            canon(o),
+            0 <= lo0 <= o.len(),
+            forall|i: int| 0 <= i < lo0 ==> (#[trigger] o[i]).0.start < range.start,
+            forall|i: int| lo0 <= i < o.len() ==> !((#[trigger] o[i]).0.start < range.start),
+            if lo0 > 0 && o[lo0 - 1].0.end >= range.start { lo == lo0 - 1 } else { lo == lo0 },
+        ensures
+            lo_ok(o, lo, range),
+    {
+        reveal(lo_ok);
+        if lo < lo0 {
+            assert(o[lo].0.start < range.start);
+            if lo > 0 { assert(o[lo - 1].0.end <= o[lo].0.start); }
+        } else {
+            if lo < o.len() {
+                assert(o[lo].0.start >= range.start);
+                assert(o[lo].0.start < o[lo].0.end);
+            }
+        }
+        assert forall|k: int| lo < k < o.len() implies (#[trigger] o[k]).0.start >= range.start by {}
+    }
+
+    /// invariant of the `hi` scan: entries `lo..hi` start at or before `range.end`
+    #[verifier::opaque]
+    pub open spec fn scan_ok<T>(o: Seq<Ent<T>>, lo: int, hi: int, range: Range<u32>) -> bool {
+        forall|k: int| lo <= k < hi ==> (#[trigger] o[k]).0.start <= range.end
+    }
+
+    pub proof fn lemma_scan_init<T>(o: Seq<Ent<T>>, lo: int, range: Range<u32>)
+        ensures
+            scan_ok(o, lo, lo, range),
+    {
+        reveal(scan_ok);
+    }
+
+    pub proof fn lemma_scan_step<T>(o: Seq<Ent<T>>, lo: int, hi: int, range: Range<u32>)
+        requires
+            scan_ok(o, lo, hi, range),
+            o[hi].0.start <= range.end,
+        ensures
+            scan_ok(o, lo, hi + 1, range),
+    {
+        reveal(scan_ok);
+    }
+
+    /// the window predicate from the facts the binary search and the `hi` scan provide
+    pub proof fn lemma_win_intro2<T: Merge>(o: Seq<Ent<T>>, lo: int, hi: int, range: Range<u32>)
+        requires
+            canon(o),
+            range.start < range.end,
+            lo_ok(o, lo, range),
+            scan_ok(o, lo, hi, range),
+            lo < hi <= o.len(),
+            hi < o.len() ==> range.end < o[hi].0.start,
+        ensures
+            win(o, lo, hi, range),
+    {
+        reveal(lo_ok);
+        reveal(scan_ok);
+        lemma_win_intro(o, lo, hi, range);
+    }
+
+    /// the no-overlap path: `lo == hi`
+    pub proof fn lemma_ins_gap<T: Merge>(o: Seq<Ent<T>>, lo: int, range: Range<u32>, value: T, res: Seq<Ent<T>>)
+        requires
+            canon(o),
+            value.wf(),
+            range.start < range.end,
+            lo_ok(o, lo, range),
+            lo < o.len() ==> range.end < o[lo].0.start,
+            res == o.insert(lo, (range, value)),
+        ensures
+            ins_post(o, range, value, res),
+    {
+        reveal(lo_ok);
+        lemma_ins_single(o, lo, range, value, res);
+    }
+
+    /// establishing the window predicate from the facts the binary search and the `hi` scan provide
+    pub proof fn lemma_win_intro<T: Merge>(o: Seq<Ent<T>>, lo: int, hi: int, range: Range<u32>)
+        requires
+            canon(o),
+            0 <= lo < hi <= o.len(),
+            range.start < range.end,
+            lo > 0 ==> o[lo - 1].0.end < range.start,
+            hi < o.len() ==> range.end < o[hi].0.start,
+            o[lo].0.end >= range.start,
+            forall|k: int| lo < k < o.len() ==> (#[trigger] o[k]).0.start >= range.start,
+            forall|k: int| lo <= k < hi ==> (#[trigger] o[k]).0.start <= range.end,
+        ensures
+            win(o, lo, hi, range),
+    {
+        reveal(win);
+        assert forall|k: int| lo <= k < hi implies range.start <= (#[trigger] o[k]).0.end && o[k].0.start <= range.end by {
+            if k > lo { assert(o[k].0.start >= range.start); }
+        }
+    }
+
+    /// the empty replacement satisfies the frontier invariant at the left end of the window
+    pub proof fn lemma_finv_init<T: Merge>(o: Seq<Ent<T>>, range: Range<u32>, value: T, r0: int, r: Seq<Ent<T>>)
+        requires
+            r.len() == 0,
+        ensures
+            finv(o, range, value, r0, r, r0),
+    {
+        reveal(finv);
+        assert forall|c: int| !#[trigger] covers(r, c) by {
+            if covers(r, c) {
+                let k = idx_of(r, c);
+                assert(inr(r[k].0, c));
+            }
+        }
+    }
+
+    /// what the next `push_coalesced` call needs to know about `replacement`
+    pub proof fn lemma_finv_pre<T: Merge>(o: Seq<Ent<T>>, range: Range<u32>, value: T, r0: int, r: Seq<Ent<T>>, f: int)
+        requires
+            finv(o, range, value, r0, r, f),
+        ensures
+            canon(r),
+            r.len() > 0 ==> r.last().0.end <= f,
+    {
+        reveal(finv);
+    }
+
+    /// the seam-coalescing branches of `insert_with` are unreachable: the result is already canonical
+    pub proof fn lemma_dead<T: Merge>(o: Seq<Ent<T>>, range: Range<u32>, value: T, res: Seq<Ent<T>>, k: int)
+        requires
+            ins_post(o, range, value, res),
+            0 <= k,
+            k + 1 < res.len(),
+            res[k].0.end >= res[k + 1].0.start,
+        ensures
+            !res[k].1.eq_spec(&res[k + 1].1),
+    {
+        reveal(ins_post);
+        lemma_no_coalesce(res, k);
+    }
+
+    /// unfolding the contract predicate (the coverage clause is given triggers on `covers`)
+    pub proof fn lemma_post_elim<T: Merge>(o: Seq<Ent<T>>, range: Range<u32>, value: T, res: Seq<Ent<T>>)
+        requires
+            ins_post(o, range, value, res),
+        ensures
+            canon(res),
+            forall|c: int| #[trigger] covers(res, c) <==> covers(o, c) || inr(range, c),
+            forall|c: int| covers(o, c) && !inr(range, c) ==> #[trigger] val_at(res, c).eq_spec(&val_at(o, c)),
+            forall|c: int| !covers(o, c) && inr(range, c) ==> #[trigger] val_at(res, c).eq_spec(&value),
+            forall|c: int| covers(o, c) && inr(range, c) ==> #[trigger] val_at(res, c).eq_spec(&val_at(o, c).merge_spec(&value)),
+    {
+        reveal(ins_post);
+    }
+
     /// in a canonical sequence two neighbours that touch have different values: the seam-coalescing branches
     /// of `insert_with` are unreachable
     pub proof fn lemma_no_coalesce<T: Merge>(s: Seq<Ent<T>>, k: int)
@@ -878,93 +1245,105 @@ pub mod vx_ids {
                 forall|c: int| !covers(old(self)@, c) && inr(range, c) ==> #[trigger] val_at(final(self)@, c).eq_spec(&value),
                 forall|c: int| covers(old(self)@, c) && inr(range, c) ==> #[trigger] val_at(final(self)@, c).eq_spec(&val_at(old(self)@, c).merge_spec(&value)),
         @start
+            hide(sorted);
+            hide(coalesced);
+            hide(nonempty);
+            hide(vals_wf);
             let ghost o = self.0@;
             proof { T::law_obeys_eq(); }
         @before 1 `stmt:return`
-            proof { lemma_ins_noop(o, range, value); }
+            proof {
+                lemma_ins_noop(o, range, value);
+                lemma_post_elim(o, range, value, self.0@);
+            }
         @before 2 `stmt:return`
             proof {
-                assert(self.0@ =~= o.insert(o.len() as int, (range, value)));
-                lemma_ins_single(o, o.len() as int, range, value, self.0@);
+                lemma_ins_push(o, range, value, self.0@);
+                lemma_post_elim(o, range, value, self.0@);
             }
         @before 3 `stmt:return`
             proof {
-                let n = o.len() - 1;
-                assert(self.0@ =~= o.update(n, (o[n].0.start..umax(o[n].0.end, range.end), o[n].1)));
                 lemma_ins_extend(o, range, value, self.0@);
+                lemma_post_elim(o, range, value, self.0@);
             }
         @before 4 `stmt:return`
             proof {
-                assert(self.0@ =~= o.insert(o.len() as int, (range, value)));
-                lemma_ins_single(o, o.len() as int, range, value, self.0@);
+                lemma_ins_push(o, range, value, self.0@);
+                lemma_post_elim(o, range, value, self.0@);
             }
         @before 1 `stmt:let lo`
-            proof { assert(self.0@ == o); }
+            proof {
+                lemma_unchanged(o, self.0@);
+                lemma_part_canon(o, range.start);
+            }
         @after 1 `stmt:let lo`
             let ghost lo0 = lo;
         @before 1 `stmt:let hi`
-            proof {
-                if lo < lo0 {
-                    assert(o[lo as int].0.start < range.start);
-                    if lo > 0 { assert(o[lo - 1].0.end <= o[lo as int].0.start); }
-                }
-                assert(lo > 0 ==> o[lo - 1].0.end < range.start);
-                assert(lo < o.len() ==> o[lo as int].0.end >= range.start) by {
-                    if lo < o.len() && lo == lo0 { assert(o[lo as int].0.start >= range.start); }
-                }
-                assert forall|k: int| lo < k < o.len() implies (#[trigger] o[k]).0.start >= range.start by {}
-            }
+            proof { lemma_lo_ok(o, lo0 as int, lo as int, range); }
+        @after 1 `stmt:let hi`
+            proof { lemma_scan_init(o, lo as int, range); }
         @loop 1
             invariant
                 self.0@ == o,
                 lo <= hi <= o.len(),
-                forall|k: int| lo <= k < hi ==> (#[trigger] o[k]).0.start <= range.end,
+                scan_ok(o, lo as int, hi as int, range),
             decreases self.0.len() - hi,
+        @before 1 `stmt:assign hi`
+            proof { lemma_scan_step(o, lo as int, hi as int, range); }
         @after 1 `stmt:while`
             proof {
-                if lo < hi {
-                    assert forall|k: int| lo <= k < hi implies range.start <= (#[trigger] o[k]).0.end && o[k].0.start <= range.end by {
-                        if k > lo { assert(o[k].0.start >= range.start); }
-                    }
-                    assert(win(o, lo as int, hi as int, range));
-                }
+                if lo < hi { lemma_win_intro2(o, lo as int, hi as int, range); }
             }
         @after 1 `stmt:call insert`
-            proof { lemma_ins_single(o, lo as int, range, value, self.0@); }
+            let ghost sg = self.0@;
+            proof { lemma_ins_gap(o, lo as int, range, value, sg); }
         @before 1 `stmt:assign end`
-            proof { lemma_no_coalesce(self.0@, lo as int); assert(false); }
+            proof { lemma_dead(o, range, value, sg, lo as int); assert(false); }
         @before 2 `stmt:assign end`
-            proof { lemma_no_coalesce(self.0@, lo - 1); assert(false); }
-        @loop 2
+            proof { lemma_dead(o, range, value, sg, lo - 1); assert(false); }
+        @before 5 `stmt:return`
+            proof { lemma_post_elim(o, range, value, self.0@); }
+        @before 1 `stmt:for`
+            let ghost mut gi: int = lo as int;
+            proof { lemma_finv_init(o, range, value, win_lo(o, lo as int, range), replacement@); }
+        @loop 2 iter=it2
             invariant
+                it2.index@ == gi - lo,
+                it2.seq().len() == hi - lo,
+                gi == i,
                 self.0@ == o,
+                lo < hi <= o.len(),
+                range.start < range.end,
                 win(o, lo as int, hi as int, range),
                 value.wf(),
                 new_start == range.start,
                 new_end == range.end,
                 lo <= i <= hi,
-                cursor == (if i == lo { win_lo(o, lo as int, range) } else { o[i - 1].0.end as int }),
+                lo <= gi <= hi,
+                gi == lo ==> cursor == win_lo(o, lo as int, range),
+                gi > lo ==> cursor == o[gi - 1].0.end,
                 finv(o, range, value, win_lo(o, lo as int, range), replacement@, cursor as int),
         @after 1 `stmt:let entry_range`
             let ghost g0 = replacement@;
             proof {
                 assert(*entry_range == o[i as int].0 && *entry_value == o[i as int].1);
                 lemma_win_facts(o, lo as int, hi as int, range, i as int);
+                lemma_finv_pre(o, range, value, win_lo(o, lo as int, range), g0, cursor as int);
             }
         @after 1 `stmt:call push_coalesced`
-            proof { assert(pushed(g0, replacement@, cursor..umin(entry_range.start, new_end), value)); }
+            proof { assert(pushed(g0, replacement@, cursor..umin(entry_range.start, new_end), value)) by { reveal(pushed); } }
         @after 11 `stmt:if`
             let ghost g1 = replacement@;
             proof { lemma_step_gap(o, lo as int, hi as int, range, value, i as int, cursor, g0, g1); }
         @after 2 `stmt:call push_coalesced`
-            proof { assert(pushed(g1, replacement@, entry_range.start..new_start, *entry_value)); }
+            proof { assert(pushed(g1, replacement@, entry_range.start..new_start, *entry_value)) by { reveal(pushed); } }
         @before 1 `stmt:let overlap_start`
             let ghost g2 = replacement@;
             proof { lemma_step_prefix(o, lo as int, hi as int, range, value, i as int, g1, g2); }
         @after 3 `stmt:call push_coalesced`
             proof {
                 assert(merged == o[i as int].1.merge_spec(&value) && merged.wf());
-                assert(pushed(g2, replacement@, overlap_start..overlap_end, o[i as int].1.merge_spec(&value)));
+                assert(pushed(g2, replacement@, overlap_start..overlap_end, o[i as int].1.merge_spec(&value))) by { reveal(pushed); }
             }
         @after 13 `stmt:if`
             let ghost g3 = replacement@;
@@ -974,15 +1353,20 @@ pub mod vx_ids {
                 lemma_step_overlap(o, lo as int, hi as int, range, value, i as int, g2, g3);
             }
         @after 4 `stmt:call push_coalesced`
-            proof { assert(pushed(g3, replacement@, new_end..entry_range.end, *entry_value)); }
+            proof { assert(pushed(g3, replacement@, new_end..entry_range.end, *entry_value)) by { reveal(pushed); } }
         @before 1 `stmt:assign cursor`
             let ghost g4 = replacement@;
             proof { lemma_step_suffix(o, lo as int, hi as int, range, value, i as int, g3, g4); }
+        @after 1 `stmt:assign cursor`
+            proof { gi = gi + 1; }
         @after 1 `stmt:for`
             let ghost h0 = replacement@;
-            proof { assert(cursor == o[hi - 1].0.end); }
+            proof {
+                assert(gi == hi);
+                lemma_finv_pre(o, range, value, win_lo(o, lo as int, range), h0, cursor as int);
+            }
         @after 5 `stmt:call push_coalesced`
-            proof { assert(pushed(h0, replacement@, cursor..new_end, value)); }
+            proof { assert(pushed(h0, replacement@, cursor..new_end, value)) by { reveal(pushed); } }
         @before 1 `stmt:let repl_len`
             let ghost rp = replacement@;
             proof { lemma_step_tail(o, lo as int, hi as int, range, value, h0, rp); }
@@ -1004,14 +1388,17 @@ pub mod vx_ids {
                 assert(self.0.len() == lo + i + 1 + (o.len() - hi));
             }
         @before 1 `stmt:let splice_end`
+            let ghost sf = self.0@;
             proof {
-                lemma_splice_done(o, lo as int, hi as int, rp, i as int, self.0@);
-                lemma_ins_general(o, lo as int, hi as int, range, value, rp, self.0@);
+                lemma_splice_done(o, lo as int, hi as int, rp, i as int, sf);
+                lemma_ins_general(o, lo as int, hi as int, range, value, rp, sf);
             }
         @before 3 `stmt:assign end`
-            proof { lemma_no_coalesce(self.0@, prev as int); assert(false); }
+            proof { lemma_dead(o, range, value, sf, prev as int); assert(false); }
         @before 4 `stmt:assign end`
-            proof { lemma_no_coalesce(self.0@, lo - 1); assert(false); }
+            proof { lemma_dead(o, range, value, sf, lo - 1); assert(false); }
+        @end
+            proof { lemma_post_elim(o, range, value, self.0@); }
         @*/
     }
 
